@@ -39,6 +39,8 @@ CHECKS = {
              note="Trusted base: rustc privacy checking and MIR, sefacts/salib, the std contract of slice::binary_search_by_key, smallvec insert/remove/index_mut behaving like Vec's."),
  "C20": dict(text="Determinism census over the type-checked program: every instantiation of std HashMap/HashSet in any MIR local, ADT field or signature uses the fixed-seed FxBuildHasher; calls into clocks, thread identity, environment, RNGs and pointer-to-integer casts are confined to a frozen exception table (run/ timing; the pointer-keyed ShowMap whose iteration is dominated by a sort on the stored insertion index; pointer sets compared for disjointness only); the only static is the thread-local slot table, and no atomics, locks or lazy globals occur in any field or local. Equality of whole transcripts is not decided.",
              technique="census over resolved types and callees (rustc_private facts), frozen exception table, dominance rule for sorted iteration", ref="§4 C20"),
+ "C18": dict(text="Static panic audit of the parser: every bounds check, range index, overflow check, unwrap/expect and explicit panic reachable from Pattern::parse, RecExpr::parse and MultiPattern::parse (library) and in the generated from_syntax of all seven test languages and the LanguageChildren impls is discharged by a recognised guard idiom on the same value (Some-edge of slice.get(k), also through `?`; starts_with(literal) of matching byte length; char_indices offsets; len()==n; constant shifts; the slot.rs overflow obligations via the C17 interpreter; the is_ground guard before pattern_to_re) or reported; nodes are built only after their arity was compared with the consumed syntax; the printers' structural literals (decoded from the format templates in MIR) are exactly the tokens the tokenizer / multi-pattern parser dispatch on; pattern_to_re/re_to_pattern mirror each other. Round-trip equality of values is not decided.",
+             technique="custom MIR analysis: panic-site census over the call-graph closure of the parse entry points with guard-idiom discharge (same-value reasoning), abstract interpretation for slot.rs arithmetic, format-template decoding", ref="§4 C18"),
  "C02": dict(text="Static necessary conditions of congruence-closure completeness: inter-procedural work-list summaries prove that no public &mut entry point returns with a non-empty work-list in any feature configuration; the drain loop exits only on empty; every class-level change re-queues usages with Full; PendingType::merge truth table; remove/re-insert pairing and self-symmetry derivation in the work-list handler; orbit closure feeds the stored slot set (known finding F1). Does not decide that the fixpoint equals the congruence closure.",
              technique="custom MIR analysis: inter-procedural must-pass-through summaries (greatest fixpoint), path rules, exhaustive constant evaluation of a 2x2 match, value dependence", ref="§4 C02"),
  "C01": dict(text="Static necessary conditions of equality soundness, decided on the MIR of every feature configuration: eq() answers true only via the class-group membership test behind the id and slot-set guards on canonicalised operands; the slot-set writer's cap is an intersection; add-permutation / merge branch discipline; union-find edge orientation. Does not decide soundness of computed slot maps as values.",
